@@ -33,6 +33,7 @@
 use crate::core_iterators::std;
 
 use core::hash::BuildHasher;
+use core::marker::PhantomData;
 use std::cmp::Ord;
 #[cfg(feature = "std")]
 use std::collections::hash_map::RandomState;
@@ -56,8 +57,13 @@ pub struct IterMut<'a, I: 'a, P: 'a, H: 'a = RandomState>
 where
     P: Ord,
 {
-    pq: &'a mut PriorityQueue<I, P, H>,
-    pos: usize,
+    // Only used to rebuild the heap when the iterator is dropped: while the iterator
+    // is alive the queue is accessed exclusively through `iter`, so that every
+    // reference handed out stays valid until the borrow of the queue ends.
+    pq: *mut PriorityQueue<I, P, H>,
+    // created by the first call that needs it (it requires `H: BuildHasher`)
+    iter: Option<::indexmap::map::IterMut2<'a, I, P>>,
+    marker: PhantomData<&'a mut PriorityQueue<I, P, H>>,
 }
 
 #[cfg(not(feature = "std"))]
@@ -65,8 +71,13 @@ pub struct IterMut<'a, I: 'a, P: 'a, H: 'a>
 where
     P: Ord,
 {
-    pq: &'a mut PriorityQueue<I, P, H>,
-    pos: usize,
+    // Only used to rebuild the heap when the iterator is dropped: while the iterator
+    // is alive the queue is accessed exclusively through `iter`, so that every
+    // reference handed out stays valid until the borrow of the queue ends.
+    pq: *mut PriorityQueue<I, P, H>,
+    // created by the first call that needs it (it requires `H: BuildHasher`)
+    iter: Option<::indexmap::map::IterMut2<'a, I, P>>,
+    marker: PhantomData<&'a mut PriorityQueue<I, P, H>>,
 }
 
 impl<'a, I: 'a, P: 'a, H: 'a> IterMut<'a, I, P, H>
@@ -74,9 +85,43 @@ where
     P: Ord,
 {
     pub(crate) fn new(pq: &'a mut PriorityQueue<I, P, H>) -> Self {
-        IterMut { pq, pos: 0 }
+        IterMut {
+            pq,
+            iter: None,
+            marker: PhantomData,
+        }
     }
 }
+
+impl<'a, I: 'a, P: 'a, H: 'a> IterMut<'a, I, P, H>
+where
+    P: Ord,
+    H: BuildHasher,
+{
+    /// The iterator over the map all the references are handed out from
+    fn iter(&mut self) -> &mut ::indexmap::map::IterMut2<'a, I, P> {
+        use indexmap::map::MutableKeys;
+
+        let pq = self.pq;
+        // SAFETY: `pq` comes from a unique reference that is valid for `'a`
+        // and that nobody else can use while this iterator is alive.
+        self.iter
+            .get_or_insert_with(|| unsafe { (*pq).store.map.iter_mut2() })
+    }
+
+    /// The number of elements still to be yielded
+    fn remaining(&self) -> usize {
+        match &self.iter {
+            Some(iter) => iter.len(),
+            // SAFETY: as above; nothing has been handed out yet
+            None => unsafe { (*self.pq).len() },
+        }
+    }
+}
+
+// SAFETY: `IterMut` behaves like the `&'a mut PriorityQueue` it was created from
+unsafe impl<I: Send, P: Send + Ord, H: Send> Send for IterMut<'_, I, P, H> {}
+unsafe impl<I: Sync, P: Sync + Ord, H: Sync> Sync for IterMut<'_, I, P, H> {}
 
 impl<'a, I: 'a, P: 'a, H: 'a> Iterator for IterMut<'a, I, P, H>
 where
@@ -85,17 +130,12 @@ where
 {
     type Item = (&'a mut I, &'a mut P);
     fn next(&mut self) -> Option<Self::Item> {
-        use indexmap::map::MutableKeys;
+        self.iter().next()
+    }
 
-        let r: Option<(&'a mut I, &'a mut P)> = self
-            .pq
-            .store
-            .map
-            .get_index_mut2(self.pos)
-            .map(|(i, p)| (i as *mut I, p as *mut P))
-            .map(|(i, p)| unsafe { (i.as_mut().unwrap(), p.as_mut().unwrap()) });
-        self.pos += 1;
-        r
+    fn size_hint(&self) -> (usize, Option<usize>) {
+        let len = self.remaining();
+        (len, Some(len))
     }
 }
 
@@ -104,7 +144,9 @@ where
     P: Ord,
 {
     fn drop(&mut self) {
-        self.pq.heap_build();
+        // SAFETY: `iter` is not used any more: the queue can be accessed directly again
+        self.iter = None;
+        unsafe { (*self.pq).heap_build() };
     }
 }
 
